@@ -345,6 +345,10 @@ func runTransition(spec *SeqSpec, init int, path []int, op Op, ops []Op) (out st
 		stepDesc = op.String()
 		preModel = model.Clone()
 		tpl, tags := template(spec, preModel, preModel.Sess[op.Sess].DB, op.Args)
+		if strings.EqualFold(op.Args[0], "EXEC") {
+			// what a transaction does depends on the watch state of its connection
+			tags = strings.TrimPrefix(tags+","+preModel.WatchTag(op.Sess), ",")
+		}
 		sigBase := tpl + "|" + tags
 		want, got, err := x.do(op)
 		if err != nil {
@@ -366,6 +370,9 @@ func runTransition(spec *SeqSpec, init int, path []int, op Op, ops []Op) (out st
 		for ti, t := range op.Then {
 			stepDesc = t.String()
 			ttpl, _ := template(spec, model, model.Sess[t.Sess].DB, t.Args)
+			if strings.EqualFold(t.Args[0], "EXEC") {
+				ttpl += "{" + model.WatchTag(t.Sess) + "}"
+			}
 			pm := model.Clone()
 			w2, g2, err := x.do(t)
 			if err != nil {
